@@ -233,4 +233,137 @@ example : okTree σ (.mk (cid "Case") 0 0 [leaf "Case" "rules" 1, leaf "Case" "r
 example : okTree σ wJoin = false ∧ okTree σ wSelect = false ∧ okTree σ wUpdate = false ∧ okTree σ wCte = false := by
   decide +kernel
 
+/-! ### [review] "every required node exactly once" for trees that deviate ONLY in the visiting order
+
+`okTree σ t` is false for every tree of the probed schema that contains `SELECT … FROM …` (FROM is walked before the select
+list), a `JOIN`, `UPDATE … SET … WHERE` or a WITH clause (`phi13`: `.order` deviations) — in the correspondence run of the
+evidence file more than half of the parser trees.  So `C13_partial`, `C13_once` (and `C12_visits`) say nothing about
+ordinary queries, although the order deviations do not affect WHICH nodes are visited, how often, with which flags, or where a
+replacement goes.  The walker never looks at the print template (`walk_congr`), and `reqTags` never looks at it either
+(`reqTags_congr`); hence the lifting theorem may be applied to the schema whose print templates are re-ordered to the walker's
+own order (`reorder`).  For the probed schema the re-ordered schema has NO order deviation left (`phi13_reordered`), and the
+four witness trees are `okTree` for it. -/
+
+-- [review]
+/-- rows agree on the walker's branch -/
+-- [review]
+def SameWalk (σ σ' : Schema) : Prop := ∀ c, (σ.row c).walk = (σ'.row c).walk
+-- [review]
+def SameKinds (σ σ' : Schema) : Prop := ∀ c, (σ.row c).kinds = (σ'.row c).kinds
+
+-- [review]
+mutual
+-- [review]
+theorem tr_congr {S : Type} (σ σ' : Schema) (h : SameWalk σ σ') (cb : Cb S) : ∀ t : Node, tr σ cb t = tr σ' cb t
+  | .mk c s t ks => by
+    simp only [tr]
+    rw [items_congr σ σ' h cb ks]
+    unfold step
+    rw [h c]
+-- [review]
+theorem trVia_congr {S : Type} (σ σ' : Schema) (h : SameWalk σ σ') (cb : Cb S) : ∀ t : Node, trVia σ cb t = trVia σ' cb t
+  | .mk c s t ks => by
+    simp only [trVia]
+    rw [items_congr σ σ' h cb ks]
+-- [review]
+theorem items_congr {S : Type} (σ σ' : Schema) (h : SameWalk σ σ') (cb : Cb S) : ∀ ks : List Node, items σ cb ks = items σ' cb ks
+  | [] => by simp [items]
+  | k :: ks => by
+    simp only [items]
+    rw [tr_congr σ σ' h cb k, trVia_congr σ σ' h cb k, items_congr σ σ' h cb ks]
+end
+
+-- [review]
+theorem walk_congr {S : Type} (σ σ' : Schema) (h : SameWalk σ σ') (cb : Cb S) (t : Node) (st : S) :
+    walk σ cb t st = walk σ' cb t st := by
+  simp only [walk, tr_congr σ σ' h cb t]
+
+-- [review]
+theorem kind_congr (σ σ' : Schema) (h : SameKinds σ σ') (c s : Nat) : (σ.row c).kind s = (σ'.row c).kind s := by
+  simp only [ClassRow.kind, h c]
+
+-- [review]
+mutual
+-- [review]
+theorem reqTags_congr (σ σ' : Schema) (h : SameKinds σ σ') : ∀ t : Node, reqTags σ t = reqTags σ' t
+  | .mk c s t ks => by
+    simp only [reqTags]
+    rw [reqKids_congr σ σ' h (σ.row c) (σ'.row c) (fun s => kind_congr σ σ' h c s) ks]
+-- [review]
+theorem reqKids_congr (σ σ' : Schema) (h : SameKinds σ σ') (row row' : ClassRow) (hr : ∀ s, row.kind s = row'.kind s) :
+    ∀ ks : List Node, reqKids σ row ks = reqKids σ' row' ks
+  | [] => by simp [reqKids]
+  | .mk c s t gs :: ks => by
+    simp only [reqKids]
+    rw [hr s, reqTags_congr σ σ' h (.mk c s t gs),
+      reqKids_congr σ σ' h (σ.row c) (σ'.row c) (fun s => kind_congr σ σ' h c s) gs,
+      reqKids_congr σ σ' h row row' hr ks]
+end
+
+/-- the same row with the print template re-ordered to the walker's order: the relevant slots the branch traverses, in
+branch order, then the remaining printed slots -/
+-- [review]
+def reorderRow (r : ClassRow) : ClassRow :=
+  let ws := (r.walk.map (·.slot)).eraseDups
+  { r with print := ws.filter (fun s => r.print.contains s) ++ r.print.filter (fun s => !ws.contains s) }
+
+-- [review]
+def reorder (σ : Schema) : Schema := σ.map reorderRow
+
+-- [review]
+def σr : Schema := reorder σ
+
+-- [review]
+def namedDevsR : List (String × String × Dev) :=
+  (schemaDevs σr).map fun d =>
+    (Schema.classNames.getD d.1 "", (Schema.slotNames.getD d.1 []).getD d.2.1 "", d.2.2)
+
+-- [review]
+theorem row_reorder (σ : Schema) (c : Nat) : (reorder σ).row c = reorderRow (σ.row c) := by
+  simp only [Schema.row, reorder, List.getD_eq_getElem?_getD, List.getElem?_map]
+  cases σ[c]? <;> rfl
+
+-- [review]
+theorem sameWalk_reorder (σ : Schema) : SameWalk (reorder σ) σ := fun c => by rw [row_reorder]; rfl
+-- [review]
+theorem sameKinds_reorder (σ : Schema) : SameKinds (reorder σ) σ := fun c => by rw [row_reorder]; rfl
+
+/-- **exactly once, up to the visiting order — for ANY schema** -/
+-- [review]
+theorem C13_review_once_reordered (σ : Schema) (t : Node) (h : okTree (reorder σ) t = true) {S : Type} (cb : Cb S)
+    (hcb : ∀ st n a b pq, (cb st n a b pq).1 = none) (st : S) :
+    ((walk σ cb t st).log.map Visit.tag).Perm ((reqTags σ t).map some)
+    ∧ (walk σ cb t st).log.map Visit.key = expected (reorder σ) t false false
+    ∧ (walk σ cb t st).self = t ∧ (walk σ cb t st).repl = none := by
+  have hw := walk_congr (reorder σ) σ (sameWalk_reorder σ) cb t st
+  have h1 := C13_once (reorder σ) t h cb hcb st
+  have h2 := (C13_lifting (reorder σ) t h).1 S cb hcb st
+  rw [hw, reqTags_congr (reorder σ) σ (sameKinds_reorder σ) t] at h1
+  rw [hw] at h2
+  exact ⟨h1, h2.1, h2.2.1, h2.2.2⟩
+
+-- [review]
+theorem phi13_reordered : namedDevsR =
+    [("CommonTableExpression", "query", .unvisited), ("CreateTable", "columns", .extra)] := by decide +kernel
+
+-- [review]
+example : [wJoin, wSelect, wUpdate, wCte].all (okTree σr) = true := by decide +kernel
+
+-- [review] (b) of `C13_body` for the live walker, specification side read on the re-ordered schema
+theorem C13_review_replace_reordered (σ : Schema) (t : Node) (h : okTree (reorder σ) t = true) (x : Nat) (r : Node) :
+    (t.tag = x → (walk σ (cbAt x r) t ()).repl = some r)
+    ∧ (t.tag ≠ x → (walk σ (cbAt x r) t ()).repl = none ∧ (walk σ (cbAt x r) t ()).self = subst (reorder σ) x r t) := by
+  have hw := walk_congr (reorder σ) σ (sameWalk_reorder σ) (cbAt x r) t ()
+  have := (C13_lifting (reorder σ) t h).2 x r
+  rw [hw] at this
+  exact this
+
+-- [review] `SELECT a FROM t JOIN u`-shaped tree: outside `okTree σ`, inside `okTree σr`; every node visited once
+example :
+    let q : Node := .mk (cid "Select") 0 0
+      [leaf "Select" "targets" 1,
+       .mk (cid "Join") (sid "Select" "from_table") 2 [leaf "Join" "left" 3, leaf "Join" "right" 4]]
+    okTree σ q = false ∧ okTree σr q = true ∧ tagsOf q = [some 0, some 2, some 4, some 3, some 1]
+      ∧ reqTags σ q = [0, 1, 2, 3, 4] := by decide +kernel
+
 end MindsVerif.Props.C13
